@@ -112,7 +112,7 @@ def apalache(ctx):
 def main(ctx):
     if not ctx.replay and not ctx.quick:
         ctx.cov["apalache_registered_iff_counted"] = apalache(ctx)
-    sizes = {"sim": ctx.pick(6, 120), "depth": ctx.pick(8, 14), "rnd": ctx.pick(10, 150), "steps": ctx.pick(18, 40),
+    sizes = {"sim": ctx.pick(6, 24), "depth": ctx.pick(8, 10), "rnd": ctx.pick(10, 150), "steps": ctx.pick(18, 40),
              "simsplit": ctx.pick(3, 6)}
     L.main_common(ctx, "C12", mc_jobs(ctx),
                   {"MaxGen": 8, "DeclSet": "{1, 2, 3, 4, 5, 8, 11, 12, 14, 15, 17, 18, 20, 21, 22, 23}", "DeclSet_masked": "{1, 2, 3, 4, 5, 8, 11, 15, 17, 18}"},
